@@ -95,6 +95,10 @@ pub struct WorldCfg {
     /// Logger formats every record (C05); otherwise logging is off for speed.
     #[serde(default)]
     pub log_all: bool,
+    /// Faults stop here (µs; 0 = never): pending triggers no longer fire, queued Byzantine
+    /// replies and fault flags of the reference slaves are discarded.
+    #[serde(default)]
+    pub fault_deadline_us: u64,
 }
 
 #[derive(Serialize, Deserialize, Clone, Debug, PartialEq, Eq)]
